@@ -831,6 +831,20 @@ class Check(PropCheck):
         lp = link_problems(src, src if parser else None) or link_problems(other, other if parser else None)
         if lp:
             return ('links', 'after the edit: %s' % lp)
+        # re-pickle and clone the edited side right away, before any probing write below touches its attribute stores
+        # (a copy made from something remembered at an earlier observation shows here)
+        vs0 = public_view(src)
+        z0 = pickle.loads(pickle.dumps(src, d['proto']))
+        vz0 = public_view(z0)
+        if vz0 != vs0 and view_modulo_attr_order(vz0) != view_modulo_attr_order(vs0):
+            return ('repickle-unfaithful', 'right after the edit %r: %s' % (e['op'], first_diff(vs0, vz0)))
+        es0 = elems(root_of(src))
+        if es0:
+            a0 = es0[e['at'] % len(es0)]
+            for how, c0 in (('cloneNode', a0.cloneNode()), ('copy', copy.copy(a0)), ('deepcopy', copy.deepcopy(a0))):
+                if not c0.isTagEqual(a0) or sorted(c0.classList) != sorted(a0.classList) or str(c0.style) != str(a0.style):
+                    return ('clone-unfaithful', '%s right after the edit %r is not tag-equal to the edited element: %r vs %r'
+                            % (how, e['op'], c0.getStartTag(), a0.getStartTag()))
         # aliasing through the style object and the attribute store (weak back-references)
         es_src, es_other = elems(root_of(src)), elems(root_of(other))
         if es_src and es_other:
